@@ -219,9 +219,9 @@ Fixpoint front_walk (txs : list (list entry)) (j : N) (k : nat) (t : tombs) : re
       end
   end.
 
-(* the deletion loop: fetchVLog(id) of an id that is not a value log is an error on the
-   single-vlog fast path and an index-out-of-range panic otherwise; errors are collected
-   (multierr) and the loop goes on *)
+(* the deletion loop: fetchVLog(id) of an id that is not a value log is an error (since c6a3ff8
+   also with several value logs); errors are collected (multierr) and the loop goes on.  DPanic
+   is kept as an outcome class of the correspondence only: nothing in the model produces it. *)
 Inductive dres := DOk | DErr | DPanic.
 Definition dres_join (a b : dres) : dres :=
   match a, b with DPanic, _ => DPanic | _, DPanic => DPanic | DErr, _ => DErr | _, DErr => DErr | _, _ => DOk end.
@@ -231,8 +231,7 @@ Fixpoint discard_all (c : cfg) (vls : list vlog) (t : tombs) : list vlog * dres 
   | [] => (vls, DOk)
   | (v, off) :: r =>
       match (if c_maxio c <? v then None else get_vl vls v) with
-      | None => if c_maxio c =? 1 then let '(vls', d) := discard_all c vls r in (vls', dres_join DErr d)
-                else (vls, DPanic)
+      | None => let '(vls', d) := discard_all c vls r in (vls', dres_join DErr d)
       | Some vl =>
           match vl_discard (c_fsz c) vl off with
           | Ok vl' => let '(vls', d) := discard_all c (set_vl vls v vl') r in (vls', d)
@@ -291,7 +290,11 @@ Inductive xout :=
 | XErrOther
 | XBlocked.                   (* waits for _valBsMux, which nobody will release *)
 
-(* the loop over tx.Entries(); `fixed` = the two early returns also unlock (fixes/C14-unlock.diff) *)
+(* the loop over tx.Entries().  `fixed` = true is the code as it is since commit 7ccd103 (the two
+   "partially truncated transaction" returns unlock first); `fixed` = false is the code before
+   it, kept for the record of the defect (Trunc/Export.v export_refuted).  The vLen > MaxValueLen
+   guard added by 85f50b0 is never taken: validateEntries refuses such values before anything is
+   written (modelling assumption: every value is within MaxValueLen). *)
 Fixpoint export_loop (fixed : bool) (c : cfg) (st : state) (es : list entry) (i : N)
                      (truncated : bool) (acc : list bytes) (mux : bool) : bool * xout :=
   match es with
